@@ -149,9 +149,7 @@ func c02Case(r *evid.Run, tier string, idx int, g *rng.R) {
 	if idx%25 == 11 {
 		// a wide element and an element with many attributes: sizes around the usual strategy thresholds
 		ws := adoc.Thresholds[:8]
-		if tier == "thorough" {
-			ws = adoc.Thresholds[:9]
-		}
+		// (the same widths in both tiers: nested predicates over the sibling axes of a w-wide element cost up to w^4)
 		adoc.Widen(g, d, rng.Pick(g, ws), false)
 		adoc.ManyAttrs(g, d, rng.Pick(g, []int{5, 9, 12, 16, 17, 40}))
 		d.Finish()
